@@ -540,7 +540,8 @@ func check(prop, tier string) int {
 		fmt.Printf("  oracle=%s: %s\n", conf.Oracle, conf.Msg)
 		nviol++
 	}
-	if nviol > 0 && exit == 0 {
+	if nviol > 0 && (exit == 0 || softInfraOnly(infra)) {
+		// a confirmed, replayable violation stands even if other episodes ran into the step cap
 		exit = 1
 	}
 
@@ -641,6 +642,16 @@ func check(prop, tier string) int {
 	fmt.Printf("%s %s: %d episodes (%d non-trivial, %d distinct signatures), %d steps, %.0fs simulated, %d violations, exit %d, %.1fs\n",
 		prop, tier, tot.Episodes, tot.Nontrivial, len(sigs), tot.Steps, float64(tot.SimTimeNs)/1e9, nviol, exit, wall)
 	return exit
+}
+
+// softInfraOnly: every infrastructure note is an episode that hit its step cap.
+func softInfraOnly(infra []string) bool {
+	for _, s := range infra {
+		if !strings.Contains(s, "step cap") {
+			return false
+		}
+	}
+	return true
 }
 
 func keys(m map[string]bool) []string {
